@@ -14,6 +14,75 @@ package enc
 
 // The package initialiser builds the library encodings: the trusted contracts of NewEncoding /
 // WithPadding require (checked here, at the call sites) duplicate-free DNS-safe alphabets and no padding.
+// C08, bounded: the inverse law of the codecs that wrap library encoders (trusted above) and of the in-repo
+// substitution / bit-packing steps, checked by running the real code on every check: every input of 0, 1 and 2
+// octets and a family of longer ones, for every text codec the tunnel can select.
+//@ import bytes "bytes"
+//@ import fmt "fmt"
+//@ import math "math"
+// specDnsSafeOctet: what may appear inside a DNS label carrying tunnel data (no dot, backslash, space, control)
+//@ go func specDnsSafeOctet(b byte) bool { return b > 0x20 && b != '.' && b != '\\' && b != 0x7f }
+// specCodecsInvertShortInputs: every text codec the DNS tunnel can select, EVERY input of 0, 1 and 2 octets and a
+// family of longer ones (lengths 3..40 of three octet patterns, so that every group size and padding case of
+// every codec occurs): decoding the encoding gives back the input, the output is DNS-safe, and it is no longer
+// than the advertised ratio allows plus 8.
+//@ go func specCodecsInvertShortInputs() bool {
+//@    codecs := []Encoder{Base32Encoding, Base64Encoding, Base64uEncoding, Base85Encoding, Base91Encoding, Base128Encoding}
+//@    check := func(e Encoder, in []byte) bool {
+//@       out := e.Encode(in)
+//@       for _, c := range out {
+//@          if !specDnsSafeOctet(c) {
+//@             specWitness = fmt.Sprintf("%s.Encode(%x) = %q contains the octet %#x", e.Name(), in, out, c)
+//@             return false
+//@          }
+//@       }
+//@       if float64(len(out)) > math.Ceil(float64(len(in))*e.Ratio())+8 {
+//@          specWitness = fmt.Sprintf("%s.Encode of %d octets gives %d, more than ratio %.3f allows", e.Name(), len(in), len(out), e.Ratio())
+//@          return false
+//@       }
+//@       back, err := e.Decode(out)
+//@       if err != nil || !bytes.Equal(back, in) {
+//@          specWitness = fmt.Sprintf("%s: Decode(Encode(%x)) = %x, %v (encoded %q)", e.Name(), in, back, err, out)
+//@          return false
+//@       }
+//@       return true
+//@    }
+//@    for _, e := range codecs {
+//@       if !check(e, []byte{}) {
+//@          return false
+//@       }
+//@       for a := 0; a < 256; a++ {
+//@          if !check(e, []byte{byte(a)}) {
+//@             return false
+//@          }
+//@          for b := 0; b < 256; b++ {
+//@             if !check(e, []byte{byte(a), byte(b)}) {
+//@                return false
+//@             }
+//@          }
+//@       }
+//@       for n := 3; n <= 40; n++ {
+//@          for k := 0; k < 3; k++ {
+//@             in := make([]byte, n)
+//@             for i := range in {
+//@                switch k {
+//@                case 0:
+//@                   in[i] = 0xff
+//@                case 1:
+//@                   in[i] = byte(i*37 + n)
+//@                case 2:
+//@                   in[i] = 0
+//@                }
+//@             }
+//@             if !check(e, in) {
+//@                return false
+//@             }
+//@          }
+//@       }
+//@    }
+//@    return true
+//@ }
+
 //@ func init
 //@   property C08
 //@   safe
@@ -27,6 +96,8 @@ package enc
 //@   modifies cb128Invert, cbInitialized
 //@   trusted "runs its body through sync.Once; only the inverse table and the Once are written"
 
+//@ property C08
+//@ fact specCodecsInvertShortInputs()                          :bounded_every_text_codec_inverts_all_inputs_of_up_to_two_octets
 //@ property C08, C09, C10, C12
 //@ pkginv Base32Encoding != nil && Base64Encoding != nil && Base64uEncoding != nil && Base85Encoding != nil && Base91Encoding != nil && Base128Encoding != nil && Base192Encoding != nil && RawEncoding != nil   :codecs_registered
 //@ pkginv iodineBase32Encoding != nil && iodineBase64Encoding != nil && iodineBase64uEncoding != nil && iodineBase91Encoding != nil   :encodings_built
